@@ -2,8 +2,9 @@
 # tools/seedtest.sh <patch-file|-e 'python-expr'> <Cxx> [tier]   — apply a breaking patch to a scratch copy of /repo and run a check on it
 set -u
 PATCH="$1"; PROP="$2"; TIER="${3:-quick}"
-S="$(mktemp -d /tmp/sb-XXXXXX)"
-rsync -a --exclude .git /repo/ "$S/"
+# SEEDTEST_DIR: a fixed scratch path (serial use only) so that Go's build cache is hit for every package the patch leaves alone
+if [ -n "${SEEDTEST_DIR:-}" ]; then S="$SEEDTEST_DIR"; mkdir -p "$S"; else S="$(mktemp -d /tmp/sb-XXXXXX)"; fi
+rsync -a --delete --exclude .git /repo/ "$S/"
 if ! (cd "$S" && patch -p1 -s < "$PATCH"); then echo "PATCH FAILED"; rm -rf "$S"; exit 3; fi
 export GOFLAGS=-mod=mod GOPROXY=off GOSUMDB=off GOTOOLCHAIN=local
 if ! (cd "$S" && go build ./... ); then echo "BROKEN PATCH: does not compile"; rm -rf "$S"; exit 3; fi
